@@ -10,7 +10,7 @@ from . import build
 from .proto import Case, parse_output
 
 WORK = os.path.join(build.VERIF, ".work")
-MODELLED_KINDS = {"kzg10", "c16", "c13", "c14", "c15"}
+MODELLED_KINDS = {"kzg10", "c16", "c13", "c14", "c15", "mlpc"}
 MODELLED_SUBS = {("c09", "kzg_setup")}   # case kinds for which the extracted model must answer
 MODELLED_PC_SCHEMES = {"marlin"}
 
